@@ -27,15 +27,19 @@ def run_seed(sid):
         if r.returncode != 0:
             return sid, 'patch does not apply: ' + r.stderr.strip()
         caught, missed = [], []
-        for p in plist:
-            raw = f'{tmp}/{p}.json'
-            o = None
-            for attempt in range(3):
-                subprocess.run([f'{ROOT}/bin/omnilint', '-prop', p, '-repo', f'{tmp}/repo', '-verif', ROOT, '-raw', raw], env=env, capture_output=True)
+        outs = {}
+        for attempt in range(3):
+            todo = [p for p in plist if p not in outs]
+            if not todo: break
+            os.makedirs(f'{tmp}/raw', exist_ok=True)
+            subprocess.run([f'{ROOT}/bin/omnilint', '-props', ','.join(todo), '-repo', f'{tmp}/repo', '-verif', ROOT, '-rawdir', f'{tmp}/raw'], env=env, capture_output=True)
+            for p in todo:
                 try:
-                    o = json.load(open(raw)); break
-                except Exception as e:
-                    o = None
+                    outs[p] = json.load(open(f'{tmp}/raw/{p}.json'))
+                except Exception:
+                    pass
+        for p in plist:
+            o = outs.get(p)
             if o is None:
                 missed.append(p); continue
             if o.get('fatal'):
